@@ -54,17 +54,17 @@ ArgOf(c) == IF c[1] \in {"EvalF", "EvalJ"} THEN c[3] ELSE IF c[1] = "EvalAll" TH
 HandedThrough(c) == /\ cfg.useDb /\ ~cfg.normalize
                     /\ (c[1] \in {"EvalF", "EvalJ"} \/ (c[1] = "EvalAll" /\ ~c[3]))
 
-\* a public call of ProblemEval: the cells are those of this call
-Call(A) ==
+\* a public call of ProblemEval (conjoined AFTER the action of ProblemEval): the cells are those of this call
+Cells ==
     /\ TLCGet("level") - nmut < BaseLevel
-    /\ A
     /\ nmut' = nmut
     /\ arg' = [val |-> ArgOf(ret'.call),
                key |-> IF KeyByRef /\ HandedThrough(ret'.call) /\ Len(db') > Len(db) THEN Len(db') ELSE 0]
     /\ rets' = [outs |-> ret'.outs, jacs |-> ret'.jacs, mutated |-> FALSE,
                 idx |-> IF ValueByRef /\ cfg.useDb /\ ret'.x # <<>> THEN Find(db', Key(ret'.x)) ELSE 0]
 
-MutGuard == TLCGet("level") < MaxLevel /\ nmut < MaxMut
+\* (the records are what the edits could reach: without a database there is nothing to protect)
+MutGuard == TLCGet("level") < MaxLevel /\ nmut < MaxMut /\ cfg.useDb
 
 \* the caller overwrites, in place, the array it gave to the last call (x[:] = next point)
 MutateArg(j) ==
@@ -99,11 +99,11 @@ MutateReturned ==
     /\ nmut' = nmut + 1
     /\ UNCHANGED <<cfg, sp, orig, arg>>
 
-CEvalF(f, i) == Call(EvalF(f, i))
-CEvalJ(f, i) == Call(EvalJ(f, i))
-CEvalAll(i, g, wj) == Call(EvalAll(i, g, wj))
-CPreprocess(c) == Call(Preprocess(c))
-CRepreprocess(c) == Call(Repreprocess(c))
+CEvalF(f, i) == EvalF(f, i) /\ Cells
+CEvalJ(f, i) == EvalJ(f, i) /\ Cells
+CEvalAll(i, g, wj) == EvalAll(i, g, wj) /\ Cells
+CPreprocess(c) == Preprocess(c) /\ Cells
+CRepreprocess(c) == Repreprocess(c) /\ Cells
 
 NextR == \/ \E f \in FnSet, i \in 1..MaxReq : CEvalF(f, i)
          \/ \E f \in FnSet, i \in 1..MaxReq : CEvalJ(f, i)
